@@ -142,7 +142,7 @@ func keys(m map[string]bool) []string {
 }
 
 func checkC05(c *Ctx) error {
-	c.Rule = "(1) build-time half, exhaustive: every dependency structure on <=3 services (edges i->j for i<j, each realised as @ argument, field, call argument, !tagged or decorator-on-own-tag) x every assignment of {unset, shared, contextual, non_shared}: 4 + 96 + 13 824 = 13 924 configurations, plus variants with an undefined dependency next to the real ones run under --ignore-missing-services, through the real binary (quick: seeded sample of 3 500), Scope section compared with the reference scope rule; (2) run-time half: seeded configurations with explicit scopes on most services, executed with histories Get x2, getter, GetInContext(ctx1) x2, GetInContext(ctx2), GetTaggedBy(InContext) and compared with the reference identity model. distinct = distinct configuration text; non-trivial = >=2 services with >=1 dependency edge and >=1 explicit scope"
+	c.Rule = "(1) build-time half, exhaustive: every dependency structure on <=3 services (edges i->j for i<j, each realised as @ argument, field, call argument, !tagged or decorator-on-own-tag) x every assignment of {unset, shared, contextual, non_shared}: 4 + 96 + 13 824 = 13 924 configurations, plus variants with an undefined dependency next to the real ones run under --ignore-missing-services, through the real binary (quick: seeded sample of 3 500), Scope section compared with the reference scope rule; (2) run-time half: seeded configurations with explicit scopes on most services, executed with histories Get x2, getter, GetInContext(ctx1) x2, GetInContext(ctx2), GetTaggedBy(InContext) and compared with the reference identity model; for a third of them two further containers are built by the same constructor function and must not hand out a common instance. distinct = distinct configuration text; non-trivial = >=2 services with >=1 dependency edge and >=1 explicit scope"
 	c.Assumptions = []string{"reference scope rule engine/ref (B.6) and identity model (B.7)", "instance identity is observed through fixture serials"}
 	w := c.W
 	// ---- (1) exhaustive small graphs: verdicts through the real binary
@@ -254,9 +254,23 @@ func checkC05(c *Ctx) error {
 		o.ContextualBias = true
 		o.ScopeProb = 0.75
 		o.NonFinite = false
+		o.NoGlobals = i%3 == 0
 		conf := gen.Behaviour(r, o)
+		ops := StdOps(conf, r, true)
+		if o.NoGlobals {
+			// "once per container": two more containers built by the same constructor function share nothing they hand out
+			// (only where no service is a package-level variable of the fixtures)
+			ind := probe.Op{Op: "independent"}
+			for _, sv := range conf.Services {
+				ind.Ops = append(ind.Ops, probe.Op{Op: "get", Name: sv.Name})
+				for _, t := range sv.Tags {
+					ind.Ops = append(ind.Ops, probe.Op{Op: "tagged", Name: t.Name})
+				}
+			}
+			ops = append(ops, ind)
+		}
 		// every other configuration is spread over 2 or 4 files (scope, constructor and the rest of a service may sit in different files)
-		units = append(units, &probe.Unit{ID: idOf(i), Cfg: conf, Files: gen.Split(r, conf, i%4), Ops: StdOps(conf, r, true)})
+		units = append(units, &probe.Unit{ID: idOf(i), Cfg: conf, Files: gen.Split(r, conf, i%4), Ops: ops})
 	}
 	// a sample of the small graphs is executed as well (accepted ones only)
 	k := 0
@@ -272,6 +286,21 @@ func checkC05(c *Ctx) error {
 		units = append(units, &probe.Unit{ID: fmt.Sprintf("c9%04d", k), Cfg: j.conf, Files: []probe.File{{Name: "gontainer.yaml", Content: j.conf.YAML()}}, Ops: StdOps(j.conf, r, true)})
 		k++
 	}
+	defer func() {
+		for _, u := range units {
+			for i, op := range u.Ops {
+				if op.Op != "independent" || i >= len(u.Results) {
+					continue
+				}
+				r := u.Results[i]
+				c.Add("container_pairs_checked_for_independence", 1)
+				c.Add("identities_compared_between_containers", int(r.Counts["identities_of_first_container"]))
+				if r.Err != "" {
+					c.Violate("containers-share-instances", fmt.Sprintf("unit %s: two containers built by the same constructor function are not independent: %s", u.ID, r.Err), unitFiles(u))
+				}
+			}
+		}
+	}()
 	return behaviourUnits(c, lab, units, func(conf *cfg.Config) bool {
 		sc := false
 		for _, s := range conf.Services {
